@@ -11,7 +11,7 @@ MCLines == SetToSeq(SeqsUpTo(LineSyms, 3) \cup Specials)
 
 LitSyms == {SA, SB, SUA, SDOT, SEA, SUEA}
 Leaves == {ULit(c) : c \in LitSyms}
-          \cup {UDot, UCls({SA, SB}, FALSE), UCls({SA}, TRUE), UCls({SUA, SEA}, FALSE), UWCls(FALSE), UWCls(TRUE)}
+          \cup {UDot, UCls({SA, SB}, FALSE), UCls({SA}, TRUE), UCls({SUA, SEA}, FALSE), UWCls(FALSE), UWCls(TRUE), UPosix(TRUE), UPosix(FALSE)}
 Looks == {ULook("bol"), ULook("eol"), ULook("wb"), ULook("nwb")}
 RepsOf(x) == {URep(x, 0, Inf, TRUE), URep(x, 1, Inf, TRUE), URep(x, 0, 1, TRUE), URep(x, 0, Inf, FALSE), URep(x, 2, 2, TRUE)}
 L0 == Leaves \cup Looks
